@@ -23,7 +23,10 @@ TEXT = ("Array/linked queues (Ekit/Props/C09a.lean, same transition systems as C
         "waits for can); the context arm is enabled at every blocking point once the context ended and a cancellation after winning a "
         "slot returns the permit; at quiescence after any cancellations enqFree = cap - count, deqFree = count, the lock is free and no "
         "close is pending; every own action decreases a variant (array) / decreases it except on the wake-up back edge, which is paid for "
-        "by a broadcast (linked). Tied by skeleton equalities (incl. cond.signalCh/broadcast) and by stress runs with directed wake-up "
+        "by a broadcast (linked). Review additions (Props/C09aRev.lean): closed channels stay closed and a parked waiter on a closed channel stays enabled under every step of other threads, "
+        "the owner of a pending close reaches it by its own enabled actions, a superseded waiter wakes whatever the queue looks like by then; from every reachable quiescent state k consecutive "
+        "Enqueues complete unaided while count + k <= cap, the next one parks in Acquire, and cap Dequeues then complete unaided (array: exactly capacity; linked: fill/drain). "
+        "Tied by skeleton equalities (incl. cond.signalCh/broadcast) and by stress runs with directed wake-up "
         "and cancellation-storm scenarios, incl. a woken waiter cancelled right after the wake-up; every call into the queue "
         "(also the sampler and the probes) is watched, a wedged queue (leaked lock) is reported within seconds and stops the run: no call stays blocked for the (seconds) bound while its enabling condition holds, none fails "
         "to return after its context ended, and the queue then accepts and delivers exactly capacity - len elements.")
